@@ -257,7 +257,21 @@ func renderSmart(c *core.Ctx, r *core.Rand, in c19Inst, zoneName string) (c19Str
 	hasSec := strings.Contains(out.timeForm, "ss")
 	dateOnly := out.timeForm == ""
 	if !dateOnly && !hasSec {
-		t = t.Add(-time.Duration(t.Second()) * time.Second)
+		// the form carries no seconds: move to a whole minute of the rendering zone's wall clock. Next to a zone transition (which is
+		// where many instants are placed on purpose) stepping back over the transition lands on a wall clock with other seconds again
+		// (offsets with a seconds part): step forward instead, and as a last resort away from the transition.
+		for try := 0; try < 8 && t.Second() != 0; try++ {
+			back := t.Add(-time.Duration(t.Second()) * time.Second)
+			fwd := t.Add(time.Duration(60-t.Second()) * time.Second)
+			switch {
+			case back.Second() == 0:
+				t = back
+			case fwd.Second() == 0:
+				t = fwd
+			default:
+				t = t.Add(time.Hour)
+			}
+		}
 	}
 	in.sec = t.Unix()
 	in.nano = 0
